@@ -5,7 +5,7 @@
 From Coq Require Import String.
 From Coq Require Import List Bool Arith NArith ZArith.
 Import ListNotations.
-Require Import PyLib Str TextModel G_fn_sir2 RefJun RefWord.
+Require Import PyLib Str Rx TextModel G_fn_sir2 RefJun RefValue RefWord RefWordsLine.
 
 (* "Each occurrence is replaced by a pseudonym determined only by the salt and the matched text": the translated
    _get_or_generate_sensitive_word_replacement, started on ANY cache whose entries are pseudonyms of their keys (which it maintains itself, so:
@@ -25,4 +25,17 @@ Proof. exact gen_word_replacement. Qed.
 Example C10G_fresh_cache : forall salt, cache_ok salt [].
 Proof. intro salt. constructor. Qed.
 
+(* the whole words stage: SensitiveWordAnonymizer.anonymize translated from the source is the model's anonymize_words_line -- a line without any
+   listed word comes back as it is; otherwise every whitespace-delimited token that is (case-insensitively) a conflicting reserved word is kept,
+   in every other token each match of the word pattern is replaced by its pseudonym; leading / trailing white space kept, inner runs collapsed.
+   The replacement cache may be in any state satisfying its invariant and satisfies it afterwards.  Premise: ASCII line (the model's case folding). *)
+Theorem C10_generated_words_stage_is_the_model :
+  forall (rx_of : pyval -> option re) (cls : list Z) (rw rh : pyval) (a : word_anonymizer), rx_of rh = Some (w_regex a) ->
+  forall (fuel : nat) (line l : str) (d : list (pyval * pyval)), cache_ok (w_salt a) d -> ascii line ->
+  anonymize_words_line a line = Done l ->
+  exists d', gen_SensitiveWordAnonymizer__anonymize (words_call rx_of) fuel (wobj cls rw rh (vres (w_conflicting a)) (w_salt a) d) (vstr line)
+             = Normal (VTuple [vstr l; wobj cls rw rh (vres (w_conflicting a)) (w_salt a) d']) /\ cache_ok (w_salt a) d'.
+Proof. exact gen_words_anonymize_refines. Qed.
+
 Print Assumptions C10_generated_word_replacement_depends_on_salt_and_text_only.
+Print Assumptions C10_generated_words_stage_is_the_model.
